@@ -453,7 +453,7 @@ theorem winv_newModel {R} (hR : OrdRel R) {w : World} (h : WInv R w) (g : Rng) :
     simp only [newModel, List.length_append, List.length_singleton]
     exact Nat.lt_succ_of_lt (h.models i hi)
 
-theorem winv_createAgent {R} (hR : OrdRel R) {w : World} (h : WInv R w) (m : Nat) (ty : Ty) (hold : Bool) (x : Int) :
+theorem winv_createAgent {R} (hR : OrdRel R) {w : World} (h : WInv R w) (m : Nat) (ty : Ty) (hold : Bool) (x : Payload) :
     WInv R (createAgent w m ty hold x) := by
   unfold createAgent
   cases hr : w.regs[m]? with
@@ -480,7 +480,7 @@ theorem winv_createAgent {R} (hR : OrdRel R) {w : World} (h : WInv R w) (m : Nat
       · exact h.models i hi
       · simp at hi; subst hi; exact hm
 
-theorem winv_createN {R} (hR : OrdRel R) {w : World} (h : WInv R w) (m : Nat) (ty : Ty) (hold : Bool) (xs : List Int) :
+theorem winv_createN {R} (hR : OrdRel R) {w : World} (h : WInv R w) (m : Nat) (ty : Ty) (hold : Bool) (xs : List Payload) :
     WInv R (createN w m ty hold xs) := by
   unfold createN
   induction xs generalizing w with
@@ -777,6 +777,7 @@ theorem winv_step {R} (hR : OrdRel R) {w : World} (h : WInv R w) (op : Op) (hop 
   | newModel g => exact winv_newModel hR h g
   | create m ty hold x => exact winv_createAgent hR h m ty hold x
   | createN m ty hold xs => exact winv_createN hR h m ty hold xs
+  | createAgents m ty hold n args => exact winv_createN hR h m ty hold _
   | remove a => exact winv_removeAgent hR h a
   | removeAll m => exact winv_removeAll hR h m
   | unhold a => exact winv_unhold h a
@@ -870,14 +871,14 @@ theorem removeAgent_info (w : World) (b : Aid) : (removeAgent w b).info = w.info
     | none => rw [removeAgent_noreg hi hr]
     | some r => rw [removeAgent_some hi hr]
 
-theorem createAgent_regs_other (w : World) (m m' : Nat) (hne : m' ≠ m) (ty : Ty) (hold : Bool) (x : Int) :
+theorem createAgent_regs_other (w : World) (m m' : Nat) (hne : m' ≠ m) (ty : Ty) (hold : Bool) (x : Payload) :
     (createAgent w m ty hold x).regs[m']? = w.regs[m']? := by
   unfold createAgent
   cases w.regs[m]? with
   | none => rfl
   | some r => simp [Ne.symm hne]
 
-theorem createN_regs_other (w : World) (m m' : Nat) (hne : m' ≠ m) (ty : Ty) (hold : Bool) (xs : List Int) :
+theorem createN_regs_other (w : World) (m m' : Nat) (hne : m' ≠ m) (ty : Ty) (hold : Bool) (xs : List Payload) :
     (createN w m ty hold xs).regs[m']? = w.regs[m']? := by
   unfold createN
   induction xs generalizing w with
@@ -923,6 +924,7 @@ theorem step_info_ext (w : World) (op : Op) : ∃ e, (step w op).info = w.info +
   | newModel g => exact ⟨[], by simp [step, newModel]⟩
   | create m ty hold x => exact (le_createAgent w m ty hold x).ext
   | createN m ty hold xs => exact (le_createN w m ty hold xs).ext
+  | createAgents m ty hold n args => exact (le_createN w m ty hold _).ext
   | remove a => exact (le_removeAgent w a).ext
   | removeAll m =>
     have hf : ∀ (l : List Aid) (w : World), (l.foldl removeAgent w).info = w.info := by
@@ -956,5 +958,51 @@ theorem run_info_ext (w : World) (ops : List Op) : ∃ e, (run w ops).info = w.i
     obtain ⟨e1, h1⟩ := step_info_ext w op
     obtain ⟨e2, h2⟩ := ih (step w op)
     exact ⟨e1 ++ e2, by simp only [List.foldl_cons]; rw [h2, h1, List.append_assoc]⟩
+
+/-! ### what `create_agents` records about the agents it creates -/
+
+theorem createAgent_spec (w : World) (m : Nat) (ty : Ty) (hold : Bool) (x : Payload) (r : Reg) (hr : w.regs[m]? = some r) :
+    (createAgent w m ty hold x).info = w.info ++ [{ model := m, ty := ty, uid := r.nextId, x := x }] ∧
+    ∃ r', (createAgent w m ty hold x).regs[m]? = some r' ∧ r'.nextId = r.nextId + 1 := by
+  unfold createAgent
+  simp only [hr]
+  refine ⟨trivial, { r.register w.info.length ty with nextId := r.nextId + 1 }, ?_, rfl⟩
+  simp [(List.getElem?_eq_some_iff.mp hr).1]
+
+theorem createN_spec (m : Nat) (ty : Ty) (hold : Bool) (xs : List Payload) (w : World) (r : Reg) (hr : w.regs[m]? = some r) :
+    (createN w m ty hold xs).info.length = w.info.length + xs.length ∧
+    (∀ i, i < w.info.length → (createN w m ty hold xs).info[i]? = w.info[i]?) ∧
+    (∀ i x, xs[i]? = some x →
+      (createN w m ty hold xs).info[w.info.length + i]? = some { model := m, ty := ty, uid := r.nextId + i, x := x }) ∧
+    ∃ r', (createN w m ty hold xs).regs[m]? = some r' ∧ r'.nextId = r.nextId + xs.length := by
+  induction xs generalizing w r with
+  | nil => exact ⟨rfl, fun _ _ => rfl, fun i x h => by simp at h, r, hr, rfl⟩
+  | cons x0 rest ih =>
+    obtain ⟨hinfo, r1, hr1, hn1⟩ := createAgent_spec w m ty hold x0 r hr
+    obtain ⟨h1, h2, h3, r', hr', hn'⟩ := ih (createAgent w m ty hold x0) r1 hr1
+    have hlen : (createAgent w m ty hold x0).info.length = w.info.length + 1 := by rw [hinfo]; simp
+    have hcons : createN w m ty hold (x0 :: rest) = createN (createAgent w m ty hold x0) m ty hold rest := rfl
+    rw [hcons]
+    refine ⟨by rw [h1, hlen]; simp; omega, fun i hi => ?_, fun i x hx => ?_, r', hr', by rw [hn', hn1]; simp; omega⟩
+    · rw [h2 i (by omega), hinfo, List.getElem?_append_left hi]
+    · cases i with
+      | zero =>
+        simp only [List.getElem?_cons_zero, Option.some.injEq] at hx
+        subst hx
+        rw [h2 _ (by omega), hinfo]
+        simp
+      | succ i =>
+        simp only [List.getElem?_cons_succ] at hx
+        have := h3 i x hx
+        rw [hlen, hn1] at this
+        have e1 : w.info.length + (i + 1) = w.info.length + 1 + i := by omega
+        have e2 : r.nextId + (i + 1) = r.nextId + 1 + i := by omega
+        rw [e1, e2]; exact this
+
+theorem splitArgs_length (n : Nat) (args : List Arg) : (splitArgs n args).length = n := by simp [splitArgs]
+
+theorem splitArgs_getElem? (n : Nat) (args : List Arg) (i : Nat) (hi : i < n) :
+    (splitArgs n args)[i]? = some (args.map (Arg.at n i)) := by
+  simp [splitArgs, hi]
 
 end Mesa.Agents
